@@ -158,9 +158,9 @@ def run(ck):
     ck.rule("R1", "a value flowing into a table access or getter has the table's key kind", floor=25)
     ck.rule("R2", "the result of a method that returns no value is never used", floor=3)
     ck.rule("R3", "a path writing one direction of an association writes the other with mirrored key and value", floor=6)
-    ck.rule("R4", "no table write precedes a possible rejection (raise, or call of a rejecting method)", floor=5)
-    ck.rule("R5", "merge hands every foreign offset and every foreign name to the adding APIs", floor=2)
-    ck.rule("R6", "the uniqueness guard dominates the write of a name / offset association", floor=3)
+    ck.rule("R4", "no table write precedes a possible rejection (raise, or call of a rejecting method)", floor=4)
+    ck.rule("R5", "merge hands every foreign offset and every foreign name to the adding APIs", floor=1)
+    ck.rule("R6", "the uniqueness guard dominates the write of a name / offset association", floor=1)
 
     # which methods return a value / raise / write
     returns_value = {}
